@@ -1538,6 +1538,53 @@ pub fn matrix_scenarios(fl: Flavour, n: u64, max_roles: usize) -> Vec<Scn> {
     out
 }
 
+/// Futures role matrix: a sink task that sends two values and leaves, a stream
+/// task that drains the primary stream to its end, and one more role. Every
+/// scenario is closed (each stream is drained or removed, every sender leaves),
+/// so any task left parked is a lost wake-up.
+pub fn fut_matrix_scenarios(ns: &[u64]) -> Vec<Scn> {
+    let mut out = Vec::new();
+    for &n in ns {
+        let cfg = qf(Flavour::B, n, (0, 0));
+        let roles: Vec<(&str, Vec<Op>, Vec<Op>)> = vec![
+            ("ST2", vec![opd(CloneH, 1, 4)], vec![op(StreamAll, 4)]),
+            ("ST3", vec![opd(AddStream, 1, 5)], vec![op(StreamAll, 5)]),
+            ("STU", vec![opd(AddStream, 1, 6), op(IntoSingle, 6)], vec![op(StreamAll, 6)]),
+            ("DT", vec![opd(CloneH, 1, 4)], vec![op(TryRecv, 4), op(DropH, 4)]),
+            ("DR", vec![opd(CloneH, 1, 4)], vec![op(DropH, 4)]),
+            ("DL", vec![opd(AddStream, 1, 8)], vec![op(DropH, 8)]),
+            ("UL", vec![opd(AddStream, 1, 8)], vec![op(Unsub, 8)]),
+            ("AS", vec![opd(CloneH, 1, 11)], vec![opd(AddStream, 11, 12), op(DropH, 11), op(StreamAll, 12)]),
+            ("CL", vec![opd(CloneH, 1, 15)], vec![opd(CloneH, 15, 16), op(DropH, 16), op(DropH, 15)]),
+            ("CS", vec![opd(CloneH, 0, 9)], vec![opd(CloneH, 9, 10), opv(SinkSend, 10, 21), op(DropH, 10), op(DropH, 9)]),
+            ("CV", vec![opd(AddStream, 1, 17)], vec![op(IntoSingle, 17), op(StreamAll, 17)]),
+            ("RT", vec![opd(AddStream, 1, 17)], vec![op(IntoSingle, 17), op(IntoMulti, 17), op(StreamAll, 17)]),
+            ("TR", vec![opd(AddStream, 1, 17), op(IntoSingle, 17)], vec![op(Transform, 17), op(StreamAll, 17)]),
+        ];
+        for (name, pre, ops) in roles {
+            for st in [St::Empty, St::Full] {
+                let mut s = Scn::new(&format!("fmx-{}[{:?}]", name, st), cfg);
+                s.prefix = pre.clone();
+                s.prefix.extend(prep(st, n, &[]));
+                s.threads = vec![
+                    vec![opv(SinkSend, 0, 1), opv(SinkSend, 0, 2), op(DropH, 0)],
+                    vec![op(StreamAll, 1)],
+                    ops.clone(),
+                ];
+                s.tags = &["C14", "C01", "C02"];
+                s.hang_prop = "C14";
+                s.post = Post::Drain;
+                s.horizon = 60_000;
+                // no preemptions in the quick tier, but a task may decline to hand
+                // over at up to two of its yield points
+                s.extra_yield = 2;
+                out.push(s);
+            }
+        }
+    }
+    out
+}
+
 fn push_matrix(t: &mut Vec<Task>, thorough: bool) {
     for fl in [Flavour::B, Flavour::M] {
         for s in matrix_scenarios(fl, 1, 3) {
@@ -1710,6 +1757,11 @@ pub fn tasks(prop: &str, tier: Tier) -> Vec<Task> {
             push_matrix(&mut t, thorough);
         }
         "C14" => {
+            for s in fut_matrix_scenarios(if thorough { ns_q } else { &[1] }) {
+                // blocking points (parks) are free choices, so even bound 0 covers
+                // every order in which the tasks run until they park or finish
+                t.push(task_sh(s, if thorough { 1 } else { 0 }, if thorough { 8 } else { 1 }));
+            }
             {
                 // the move-out futures flavour (default spin counts only)
                 let cfg = qf(Flavour::M, 1, (0, 0));
